@@ -229,7 +229,9 @@ fn cfgs(tier: &str) -> Vec<BackendCfg> {
         fsync: "always".into(),
     };
     // the capacity-3 configuration carries the index-full class (refusals at capacity)
-    let mut v = vec![mk("euclidean", 2, 0, 1 << 20, 64), mk("cosine", 2, 2, 1, 64), mk("euclidean", 3, 2, 1 << 20, 3)];
+    // "cosine!" = cosine with hnsw.disable_normalization_check = true (the index then accepts
+    // whatever the normalisation step hands it)
+    let mut v = vec![mk("euclidean", 2, 0, 1 << 20, 64), mk("cosine", 2, 2, 1, 64), mk("euclidean", 3, 2, 1 << 20, 3), mk("cosine!", 2, 0, 1 << 20, 64)];
     if tier == "thorough" {
         v.push(mk("inner_product", 3, 0, 1, 3));
     }
